@@ -24,6 +24,7 @@ CONSTANTS
   MaxNet = 4
   W = {}
   MayTimeout = {a, b}
+  MayLink = {}
   Gen = TRUE
 INIT TInit
 NEXT TNext
